@@ -30,13 +30,13 @@ theorem guard_load_jcond64 (env : Env) (st : List Byte) (L : Label) (hlen : st.l
     (ldop n k jop : Nat) (imm : Int) (c : Bool)
     (hld : (ldop = opLoadReg8 ∧ n = 1) ∨ (ldop = opLoadReg16 ∧ n = 2) ∨ (ldop = opLoadReg32 ∧ n = 4) ∨
       (ldop = opLoadReg64 ∧ n = 8))
-    (hk : k + n ≤ 512)
+    (hk : k + n ≤ 512) (hstab : ∀ j, k ≤ j → j < k + n → Stable j)
     (hj : jop = opJumpEqImm64 ∨ jop = opJumpNEImm64 ∨ jop = opJumpGEImm64 ∨ jop = opJumpLTImm64 ∨ jop = opJumpLEImm64)
     (hc : cond (jop / 16) (BitVec.ofNat 64 (fieldN st k n)) (sext32 imm) = some c) :
     Guard env st L [.ins ⟨ldop, 1, 9, (k : Int), 0⟩, .jmp ⟨jop, 1, 0, 0, imm⟩ L] (!c) := by
   intro rest m hI
   have h1 := step_ldx_state (env := env) hI ldop 1 k n 0 (nextIns (Ev.jmp ⟨jop, 1, 0, 0, imm⟩ L :: rest))
-    ((st.drop k).take n) hld (by omega) hk (getBytes_full hlen k n hk)
+    ((st.drop k).take n) hld (by omega) hk (getBytes_full hlen k n hk) hstab
   have hI1 : Inv st (m.setReg 1 (BitVec.ofNat 64 (leNat ((st.drop k).take n)))) :=
     hI.setReg 1 _ (by omega) (by omega) (by omega)
   refine ⟨_, hI1, ?_⟩
@@ -93,7 +93,7 @@ theorem cond_ne_nat {x k : Nat} (hx : x < 2 ^ 64) (hk : k < 2 ^ 64) :
 theorem guard_field_eq (env : Env) (st : List Byte) (L : Label) (hlen : st.length = 512)
     (ldop n k : Nat) (v : Nat) (neg : Bool)
     (hld : (ldop = opLoadReg8 ∧ n = 1) ∨ (ldop = opLoadReg16 ∧ n = 2))
-    (hk : k + n ≤ 512) (hv : v < 2 ^ 64) :
+    (hk : k + n ≤ 512) (hstab : ∀ j, k ≤ j → j < k + n → Stable j) (hv : v < 2 ^ 64) :
     Guard env st L [.ins ⟨ldop, 1, 9, (k : Int), 0⟩,
       if neg then jumpEqImm64 R1 (v : Int) L else jumpNEImm64 R1 (v : Int) L]
       (if neg then !(fieldN st k n == v) else fieldN st k n == v) := by
@@ -107,11 +107,11 @@ theorem guard_field_eq (env : Env) (st : List Byte) (L : Label) (hlen : st.lengt
     · exact Or.inr (Or.inl h)
   cases neg with
   | true =>
-    have := guard_load_jcond64 env st L hlen ldop n k opJumpEqImm64 (v : Int) (fieldN st k n == v) hld' hk
+    have := guard_load_jcond64 env st L hlen ldop n k opJumpEqImm64 (v : Int) (fieldN st k n == v) hld' hk hstab
       (Or.inl rfl) (by simpa [opJumpEqImm64] using cond_eq_nat hf hv)
     simpa [jumpEqImm64, mkJ, R1] using this
   | false =>
-    have := guard_load_jcond64 env st L hlen ldop n k opJumpNEImm64 (v : Int) (fieldN st k n != v) hld' hk
+    have := guard_load_jcond64 env st L hlen ldop n k opJumpNEImm64 (v : Int) (fieldN st k n != v) hld' hk hstab
       (Or.inr (Or.inl rfl)) (by simpa [opJumpNEImm64] using cond_ne_nat hf hv)
     simpa [jumpNEImm64, mkJ, R1, bne] using this
 
@@ -135,7 +135,7 @@ theorem guard_proto (env : Env) (st : List Byte) (rid : Nat) (neg : Bool) (pr : 
   have hb : protoIs (pktOfD st) pr = (fieldN st 104 1 == k) := by
     simp only [protoIs, h1, pkt_proto_toNat]
   have := guard_field_eq env st (.ruleNoMatch rid) hlen opLoadReg8 1 104 k neg (Or.inl ⟨rfl, rfl⟩)
-    (by omega) (by omega)
+    (by omega) (by intro j h1 h2; unfold Stable; omega) (by omega)
   rw [hb]
   unfold protoMatch
   rw [h2]
@@ -176,7 +176,7 @@ theorem guard_icmp (env : Env) (st : List Byte) (rid : Nat) (neg : Bool) (ic : I
       simp only [beq_iff_eq]
       omega
     have := guard_field_eq env st (.ruleNoMatch rid) hlen opLoadReg8 1 98 (t % 256).toNat neg (Or.inl ⟨rfl, rfl⟩)
-      (by omega) (by omega)
+      (by omega) (by intro j h1 h2; unfold Stable; omega) (by omega)
     have hn : ((Icmp.type t == Icmp.none) = false) := by simp
     simp only [icmpMatch, icmpTypeMatch, hb, hn, Bool.false_or]
     rw [ht]
@@ -190,7 +190,7 @@ theorem guard_icmp (env : Env) (st : List Byte) (rid : Nat) (neg : Bool) (ic : I
       simp only [Bool.and_eq_true, beq_iff_eq]
       omega
     have := guard_field_eq env st (.ruleNoMatch rid) hlen opLoadReg16 2 98 ((c % 256).toNat * 256 + (t % 256).toNat) neg
-      (Or.inr ⟨rfl, rfl⟩) (by omega) (by omega)
+      (Or.inr ⟨rfl, rfl⟩) (by omega) (by intro j h1 h2; unfold Stable; omega) (by omega)
     have hn : ((Icmp.typeCode t c == Icmp.none) = false) := by simp
     simp only [icmpMatch, icmpTypeCodeMatch, hb, hn, Bool.false_or]
     rw [hv]
